@@ -4,7 +4,7 @@
     Generated/ParserTables.v (token numbers, prefix table, QToProto / newMatchTree case lists from the source).
     The external engines (RegexpQuery's regexp/syntax, grafana regexp.Compile, language lookup,
     Regexp.setCase(auto)) are universally quantified. *)
-From ZV Require Import Lib.Base Model.Query Generated.ParserTables Model.Parser Proofs.ParserTotal Proofs.ParserKinds.
+From ZV Require Import Lib.Base Model.Query Generated.ParserTables Model.Parser Proofs.ParserTotal Proofs.ParserKinds Proofs.ParserFuel.
 From Coq Require Import String.
 Open Scope N_scope.
 
@@ -32,6 +32,15 @@ Theorem C07_parse_terminates_within_fuel :
     end.
 Proof. intros. apply parse_with_fine. exact H. Qed.
 Print Assumptions C07_parse_terminates_within_fuel.
+
+(** ... and the answer does not depend on the fuel: every fuel >= 3*|s|+3 gives exactly Parse's result
+    (the explicit fuel is a proof device, not a bound on what is parsed) *)
+Theorem C07_parse_fuel_independent :
+  forall (rq : str -> rqres) (rx_auto rcompile : str -> bool) (lang : str -> option str) (s : str) (fuel : nat),
+    (3 * List.length s + 3 <= fuel)%nat ->
+    parse_with rq rx_auto rcompile lang fuel s = parse rq rx_auto rcompile lang s.
+Proof. intros. apply parse_fuel_independent. exact H. Qed.
+Print Assumptions C07_parse_fuel_independent.
 
 (** every query that parsing yields is converted by QToProto without reaching its
     `panic("unknown query node")` default - the case list is regenerated from query_proto.go *)
